@@ -1,0 +1,31 @@
+//go:build verif
+
+package hash
+
+// Contracts for the hash plugin (C04, C14, C18, C01, C09), read by /verif's gvc (comment-only file).
+
+//@ func hasHashMethod(typ *types.Named) (r bool)
+//@ abstract: pred
+
+//@ func (g *gen) Add(name string, typs []types.Type) (r string, err error)
+//@ param typs: len=0,1,2,3
+//@ param name: classes=Ident
+
+//@ func (g *gen) Generate(typs []types.Type) (err error)
+//@ param typs: len=1
+
+//@ func (g *gen) field(fieldName string, fieldType types.Type) (s string, err error)
+//@ abstract: expr classes=Call
+//@ param fieldName: classes=Primary,Star,Amp type=fieldType
+
+//@ func (g *gen) genStatement(o string, typ types.Type) (err error)
+//@ abstract: stmt returns
+//@ param o: classes=Ident,Star type=typ
+
+//@ func (g *gen) genFunc(typs []types.Type) (err error)
+//@ param typs: len=1
+//@ emits: decls
+//@ serves: hash len=1 typs=typs
+//@ o-sig: (object $typs[0]) (r uint64)
+//@ o-pure
+//@ o-ensures: [hash] r == HashSpec(typs0, object)
